@@ -1,5 +1,73 @@
 import PkVerif.Drv.Common
-/-! `pkmodel-c14`: stub (property not built yet). -/
+import PkVerif.Model.Conc
+/-! `pkmodel-c14`: replays a *sequential* order of calls – the linearisation that the harness found
+for a recorded concurrent history – on the reference map `RefMap.next/out` (which is also what every
+linearisation step of the interleaving model `Pk.Conc` applies), and prints each call's answer; the
+harness prints the answers the real store gave in the concurrent run.
+
+    store <kind>                  start of a history (fresh map)
+    recv <keyhex> <valhex> | fetch <k> | stat <k> | enum <afterhex> <limit> | rm <k>
+    irecv <k> <v> | meta <k> | claims <permanode k> | query     (indexer: same map; a permanode's
+                                   claims are the received blobs whose bytes mention its ref)
+-/
 namespace Pk.Drv.C14
-def machine : Machine := { σ := Unit, init := (), step := fun s _ => (s, "bad-op") }
+open Pk Pk.RefMap
+
+def showPairs (l : List (Bytes × Nat)) : String :=
+  " ".intercalate (l.map (fun p => s!"{toHexString p.1}:{p.2}"))
+
+def showOut : Out → String
+  | .sized n => s!"sized {n}"
+  | .bytes b => s!"bytes {toHexString b}"
+  | .notExist => "notexist"
+  | .refs l => ("refs " ++ showPairs l).trimRight
+  | .ok => "ok"
+  | .err => "err"
+
+/-- `needle` occurs in `hay` -/
+def isInfix (needle : Bytes) : Bytes → Bool
+  | [] => needle.isEmpty
+  | x :: rest => needle.isPrefixOf (x :: rest) || isInfix needle rest
+
+/-- the claims of permanode `pn`: received blobs that mention its ref (attribute claims carry it as
+`permaNode`, delete claims as `target`) -/
+def claimsOf (m : SMap Bytes) (pn : Bytes) : List (Bytes × Nat) :=
+  (m.filter (fun p => isInfix pn p.2)).map (fun p => (p.1, p.2.length))
+
+abbrev St := Option (SMap Bytes)
+
+def run1 (m : SMap Bytes) (op : Op) : St × String := (some (next m op), showOut (out m op))
+
+def step (st : St) (ws : List String) : St × String :=
+  match ws with
+  | ["store", _] => (some [], "ok")
+  | _ =>
+    match st with
+    | none => (st, "bad-op")
+    | some m =>
+      match ws with
+      | [w, k, v] =>
+        if w == "recv" || w == "irecv" then
+          (match hexArg k, hexArg v with
+           | some k, some v => run1 m (.recv k v)
+           | _, _ => (st, "bad-op"))
+        else if w == "enum" then
+          (match hexArg k, v.toNat? with
+           | some a, some n => run1 m (.enum a n)
+           | _, _ => (st, "bad-op"))
+        else (st, "bad-op")
+      | [w, k] =>
+        (match hexArg k with
+         | none => (st, "bad-op")
+         | some k =>
+           if w == "fetch" then run1 m (.fetch k)
+           else if w == "stat" || w == "meta" then run1 m (.stat k)
+           else if w == "rm" then run1 m (.rm k)
+           else if w == "claims" then (st, ("refs " ++ showPairs (claimsOf m k)).trimRight)
+           else (st, "bad-op"))
+      | ["query"] => (st, "ok")
+      | _ => (st, "bad-op")
+
+def machine : Machine := { σ := St, init := none, step := step }
+
 end Pk.Drv.C14
